@@ -85,6 +85,7 @@ let show_matches (ms : imatch list) : string =
   String.concat ";" (List.map (fun (s, e, cs) ->
     Printf.sprintf "%d-%d[%s]" s e (String.concat "," (List.map (fun c -> match c with None -> "-" | Some (a, b) -> Printf.sprintf "%d-%d" a b) cs))) ms)
 
+let utf16_build = (try Sys.getenv "RV_UTF16" = "1" with Not_found -> false)
 let err_name = function Oob -> "oob" | Unreach -> "unreachable" | Panic -> "panic"
 
 let fuel_cache : (int, nat) Hashtbl.t = Hashtbl.create 4
@@ -97,6 +98,8 @@ let fuel_for (budget : int) : nat =
 let run_model (engine : string) (prog : program) (h : n list) (start : int) (budget : int) : string * int * imatch list =
   let ascii = (engine = "bta" || engine = "pka") in
   let prog = if engine = "btx" || engine = "pkx" then { prog with p_start_pred = SPArbitrary } else prog in
+  (* with the utf16 feature the backtracking executor never uses the prefilter (next_match is cfg'd) *)
+  let prog = if utf16_build && (engine = "bt8" || engine = "bta") then { prog with p_start_pred = SPArbitrary } else prog in
   let fuel = fuel_for budget in
   let fin (ms, res, steps) =
     let st = match res with IterDone -> "ok" | IterError e -> "err:" ^ err_name e | IterBudget -> "budget" in
